@@ -25,7 +25,7 @@ import (
 // ------------------------------------------------------------------------------------------------
 // transport corruption (Byzantine relayer)
 
-var corruptKinds = []string{"packet_field", "packet_reencode", "payload_swap", "ack_bytes", "proof_bits", "proof_swap", "proof_trunc", "proof_empty", "height_shift", "signer_swap", "revision_shift"}
+var corruptKinds = []string{"packet_field", "packet_reencode", "payload_swap", "ack_bytes", "proof_bits", "proof_swap", "proof_trunc", "proof_empty", "height_shift", "signer_swap", "revision_shift", "bytes_noncanonical"}
 
 func (w *world) applyCorruption(rm *relayMsg, c *corruption) {
 	kind := c.kind
@@ -146,6 +146,36 @@ func (w *world) applyCorruption(rm *relayMsg, c *corruption) {
 			rm.proofHeight.RevisionHeight -= d
 		} else {
 			rm.proofHeight.RevisionHeight += d
+		}
+	case "bytes_noncanonical":
+		// the same acknowledgement (or packet) in another byte form that still ABI-decodes to the same
+		// value: appended bytes, dirty padding of the last dynamic field, dirty high bytes of a uint64 word
+		bz := rm.ack
+		if rm.kind != "ack" {
+			bz = rm.packet
+		}
+		if len(bz) < 96 {
+			return
+		}
+		cp := append([]byte{}, bz...)
+		switch kernel.Mod(arg, 3) {
+		case 0:
+			cp = append(cp, make([]byte, 32)...)
+			cp[len(cp)-1] = byte(1 + arg%200)
+		case 1:
+			cp[len(cp)-1] ^= 0x5a // padding of the last dynamic field (when it is padded)
+		case 2:
+			// first word after the tuple offset is a uint64 (ack code / packet has a string offset there)
+			if rm.kind == "ack" {
+				cp[32] ^= 0x01
+			} else {
+				cp = append(cp, 0xff)
+			}
+		}
+		if rm.kind == "ack" {
+			rm.ack = cp
+		} else {
+			rm.packet = cp
 		}
 	case "revision_shift":
 		// only the revision number of the stated proof height is altered
@@ -302,6 +332,58 @@ func (w *world) opAdv(op kernel.Op) {
 	w.rec.Logf("submit %s on %s", in.desc, c.Cfg.Name)
 }
 
+// forgerRuntime: calldata = topic(32) | data; emits LOG1(topic, data) from its own address.
+var forgerRuntime = common.FromHex("366020900380602060003760003590" + "6000a100")
+
+// opForge: an unprivileged contract emits a log that looks exactly like the packet contract's
+// PacketSent(bytes) event, carrying a well-formed packet for the next free sequence of a real path. It is
+// not the packet contract: nothing may be committed, sequenced or relayed because of it.
+func (w *world) opForge(op kernel.Op) {
+	c := w.chain(op.Arg(0))
+	if c.forger == (common.Address{}) {
+		nonce := c.App.EvmKeeper.GetNonce(c.ReadCtx(), w.adv.Eth) + uint64(c.pendingAdv)
+		c.forger = ethcrypto.CreateAddress(w.adv.Eth, nonce)
+		rt := forgerRuntime
+		init := append([]byte{0x60, byte(len(rt)), 0x80, 0x60, 0x0b, 0x60, 0x00, 0x39, 0x60, 0x00, 0xf3}, rt...)
+		c.mempool = append(c.mempool, &intent{kind: "advdeploy", signer: w.adv, eth: true, data: init, desc: "deploy event forger"})
+		c.pendingAdv++
+	}
+	var others []*xchain
+	for _, o := range w.chains {
+		if o.idx != c.idx {
+			others = append(others, o)
+		}
+	}
+	d := others[kernel.Mod(op.Arg(1), len(others))]
+	seq := w.m.sends[c.Cfg.Name+">"+d.Cfg.Name] + 1 + uint64(kernel.Mod(op.Arg(2), 2))
+	// a transfer of this chain's origin token to the adversary on the destination (or a copy of the last
+	// genuine packet of the path with the next sequence)
+	p := Packet{SrcChain: c.Cfg.Name, DstChain: d.Cfg.Name, Sequence: seq, Sender: lower(w.adv.Eth)}
+	var last *pkt
+	for _, k := range sortedPktKeys(w.m.pkts) {
+		if pk := w.m.pkts[k]; pk.src == c.idx && pk.dst == d.idx && (last == nil || pk.seq > last.seq) {
+			last = pk
+		}
+	}
+	if last != nil && op.Arg(3)%2 == 0 {
+		p.TransferData, p.CallData, p.Sender = last.p.TransferData, last.p.CallData, last.p.Sender
+	} else {
+		p.CallData = CallData{ContractAddress: lower(d.counter), CallData: []byte{0x01}}.Encode()
+	}
+	arg, err := packetABI.Events["PacketSent"].Inputs.Pack(p.Encode())
+	if err != nil {
+		panic(err)
+	}
+	data := append(packetABI.Events["PacketSent"].ID.Bytes(), arg...)
+	to := c.forger
+	in := &intent{kind: "adv", signer: w.adv, eth: true, to: &to, data: data, adv: &advInfo{what: "forged_PacketSent@contract"},
+		desc: fmt.Sprintf("adv forged PacketSent log %s", p.Triple())}
+	c.mempool = append(c.mempool, in)
+	c.pendingAdv++
+	w.rec.Fault("byz.forged_packet_sent_event")
+	w.rec.Logf("submit %s on %s", in.desc, c.Cfg.Name)
+}
+
 // systemDiff: changes to bridge-relevant state (xibc store, storage of the system/token/helper
 // contracts, bank, aggregate), ignoring the adversary's own contract.
 func (w *world) systemDiff(c *xchain, out *txOutcome) []string {
@@ -310,7 +392,7 @@ func (w *world) systemDiff(c *xchain, out *txOutcome) []string {
 		if strings.HasPrefix(k, "evm:0x") {
 			bz := common.FromHex(k[4:])
 			if a, ok := evmKeyContract(string(bz)); ok {
-				if a == c.forwarder {
+				if a == c.forwarder || a == c.forger {
 					continue
 				}
 			} else {
@@ -385,6 +467,8 @@ func (w *world) applyExt(op kernel.Op) bool {
 		w.opTSS(op)
 	case "xrestart":
 		w.opRestart(op)
+	case "forge":
+		w.opForge(op)
 	default:
 		return false
 	}
@@ -408,6 +492,15 @@ func (w *world) afterExt(c *xchain, in *intent, out *txOutcome) {
 		c.pendingAdv--
 		if d := w.systemDiff(c, out); len(d) > 0 {
 			w.rec.Violate("C06", "privileged_call_effect", in.adv.what+":"+classifyDiff(d), "%s by an unprivileged caller on %s changed bridge state: %v (tx ok=%v)", in.adv.what, c.Cfg.Name, trunc(d, 6), out.ok)
+		}
+		// honest relayers relay whatever the chain announces as sent
+		for _, e := range out.events {
+			if e.Kind == "send" {
+				w.rec.Violate("C04", "unprivileged_send_event", in.adv.what, "%s made %s emit EventSendPacket for %s/%s/%d", in.adv.what, c.Cfg.Name, e.Src, e.Dst, e.Seq)
+				if dst := w.chainByName(e.Dst); dst != nil {
+					w.wire = append(w.wire, &wireMsg{kind: "recv", from: c.idx, to: dst.idx, packet: e.Packet, height: c.CurHdr.Height, key: fmt.Sprintf("%s/%s/%d", e.Src, e.Dst, e.Seq), dropped: map[int]bool{}})
+				}
+			}
 		}
 		w.rec.Probe("adv." + in.adv.what[strings.Index(in.adv.what, "@")+1:])
 		if out.ok {
